@@ -21,7 +21,7 @@ def main(tier):
             "synthetics and the C++ name table (R-DOLLAR); the field accessor returns a real view only under "
             "has_field ∧ offset/size known ∧ non-negative, passes (offset, size) in that order and otherwise returns "
             "the null view (R-ACCESSOR); existence/Ok checks and text I/O follow fields_in_dependency_order "
-            "(R-DEPORDER); the expressions synthesised for $size_in_*, $max/min_size_in_*, $next and anonymous-bits aliases "
+            "(R-DEPORDER) and every path of the Ok() grouping loop records the field in a group that is emitted (R-OKCOVER); the expressions synthesised for $size_in_*, $max/min_size_in_*, $next and anonymous-bits aliases "
             "have the documented shape (`$max(0, exists ? start + size : 0, ...)` over every non-virtual field, upper/lower "
             "bound of the size in the same unit) and each placeholder of a skeleton is filled with the quantity it names "
             "(R-SYNTH); every runtime name the generator emits exists (R-RTSYMS); the C++ type in which an operation is "
@@ -35,6 +35,7 @@ def main(tier):
     chk.run("R-DOLLAR", B.dollar, r, floor=10)
     chk.run("R-ACCESSOR", B.accessor, r, floor=5)
     chk.run("R-DEPORDER", B.deporder, r, floor=3)
+    chk.run("R-OKCOVER", B.okcover, r, floor=3)
     chk.run("R-RTSYMS", C.rtsyms, r, cx.cpp, cx.templates, floor=10)
     chk.run("R-SYNTH", SY.synth, r, floor=12)
     chk.run("R-INTERMEDIATE", RG.intermediate, r, floor=2)
